@@ -30,7 +30,7 @@ TraceInit ==
 IsEvent(e) == l <= TraceLen /\ Trace[l].ev = e /\ l' = l + 1
 
 \* sets travel as JSON arrays
-Dec(o) == [k \in DOMAIN o |-> IF k \in {"x", "v", "acct"} /\ o.op \in {"NodeSet", "Attest", "Round", "RestRegs", "Offer", "Env"} THEN SeqToSet(o[k]) ELSE o[k]]
+Dec(o) == [k \in DOMAIN o |-> IF k \in {"x", "v", "acct"} /\ o.op \in {"NodeSet", "Attest", "Round", "RestRegs", "Offer", "Env", "Config"} THEN SeqToSet(o[k]) ELSE o[k]]
 
 TraceReset ==
     /\ IsEvent("Reset")
